@@ -31,6 +31,12 @@ def closed_form(rng: Any, s: Any, depth: int = 0) -> Any:
     if gen.common_rank(s) >= 2:
         kinds.append('moveaxis_sq')
     kind = gen.pick(rng, kinds)
+    if kind == 'homothety' and rng.integers(3) == 0:
+        # integer-valued scalars (what `2 * op` stores): the reciprocal is not an integer
+        k = int(gen.pick(rng, [2, 3, -2, 4, 5, -7]))
+        LOG.count('C06.blocks', 'integer-scalar')
+        return gen.pick(rng, [lambda: (k * IdentityOperator(s)).reduce(), lambda: HomothetyOperator(jnp.array(k), s),
+                              lambda: HomothetyOperator(np.int64(k), s), lambda: HomothetyOperator(k, s)])()
     if kind == 'homothety':
         return gen.a_homothety(rng, s)
     if kind == 'identity':
@@ -68,7 +74,34 @@ def _block(rng: Any, c: Any, depth: int) -> Any:
     return op
 
 
+def case_permutation(rng: Any, ctx: Ctx, index: int) -> None:
+    """Axis permutations that are not square (the shapes change): the inverse is still exact, A.I(A(x)) = x and A(A.I(y)) = y
+    element by element, on pytrees whose leaves have different ranks and with axes of either sign."""
+    gen.begin_case(rng)
+    u = gen.universe(rng)
+    s = u[gen.pick(rng, ['tuple_mixrank', 'tuple_samefirst', 'm23', 't213', 't223', 'nested'])]
+    op = generate(lambda: gen.a_moveaxis(rng, s))
+    if op is None:
+        return
+    inv = op.I                                # monitored
+    LOG.case_key(f'closed:permutation:{dense.skeleton(op)}:{struct_kind(s)}', True)
+
+    def j() -> None:
+        x = gen.rand_input(rng, op.in_structure())
+        y = gen.rand_input(rng, op.out_structure())
+        LOG.evaluated('C06.roundtrip')
+        for name, a, b in (('A.I(A(x))', inv.mv(op.mv(x)), x), ('A(A.I(y))', op.mv(inv.mv(y)), y)):
+            la, lb = jax.tree.leaves(a), jax.tree.leaves(b)
+            if len(la) != len(lb) or any(p.shape != q.shape or not np.array_equal(np.asarray(p), np.asarray(q)) for p, q in zip(la, lb)):
+                LOG.violation('C06', 'C06.roundtrip', 'MoveAxisOperator.I/roundtrip', f'{name} is not the identity relabelling',
+                              expr=dense.describe(op), got=[list(p.shape) for p in la], expected=[list(q.shape) for q in lb])
+                return
+    guarded('C06.roundtrip', j)
+
+
 def case_closed(rng: Any, ctx: Ctx, index: int) -> None:
+    if index % 10 == 9:
+        return case_permutation(rng, ctx, index)
     gen.begin_case(rng)
     s = gen.rand_struct(rng)
     op = generate(lambda: closed_form(rng, s))
